@@ -173,21 +173,29 @@ fn zero_range(buf: &mut [u8], off: usize, len: usize) -> bool {
 }
 
 pub fn hex(b: &[u8]) -> String {
-    let mut s = String::with_capacity(b.len() * 2);
+    const D: &[u8; 16] = b"0123456789abcdef";
+    let mut s = Vec::with_capacity(b.len() * 2);
     for x in b {
-        s.push_str(&format!("{:02x}", x));
+        s.push(D[(x >> 4) as usize]);
+        s.push(D[(x & 15) as usize]);
     }
-    s
+    String::from_utf8(s).unwrap_or_default()
 }
 
 pub fn unhex(s: &str) -> Vec<u8> {
     let b = s.as_bytes();
     let mut v = Vec::with_capacity(b.len() / 2);
     let mut i = 0;
+    fn d(c: u8) -> u8 {
+        match c {
+            b'0'..=b'9' => c - b'0',
+            b'a'..=b'f' => c - b'a' + 10,
+            b'A'..=b'F' => c - b'A' + 10,
+            _ => 0,
+        }
+    }
     while i + 1 < b.len() {
-        let h = (b[i] as char).to_digit(16).unwrap_or(0);
-        let l = (b[i + 1] as char).to_digit(16).unwrap_or(0);
-        v.push((h * 16 + l) as u8);
+        v.push(d(b[i]) * 16 + d(b[i + 1]));
         i += 2;
     }
     v
@@ -390,10 +398,42 @@ const INTERESTING: &[&[u8]] = &[
     &[0x00, 0x00, 0x01, 0x00],
 ];
 
-/// A position: structure-aware with probability 2/3 (when targets exist), else uniform.
+fn class_weight(label: &str) -> u32 {
+    if label.starts_with("slot.") || label.starts_with("islot.") || label.starts_with("hnsw.slot") {
+        24
+    } else if label.starts_with("cell.value_len") || label.starts_with("rec.") {
+        24
+    } else if label.starts_with("page.") || label.starts_with("leaf.") || label.starts_with("trunk.") || label.starts_with("hnsw.page") {
+        22
+    } else if label.starts_with("hdr.") || label.starts_with("meta.") || label == "cat.offset" || label == "cat.length" || label.starts_with("hnsw.hdr") {
+        12
+    } else if label == "cat.body" || label.starts_with("wal.") {
+        30
+    } else if label.starts_with("cell.key") || label.starts_with("icell.") || label.starts_with("mvcc.") {
+        8
+    } else {
+        5
+    }
+}
+
+/// A position: structure-aware with probability 4/5 (when targets exist), else uniform. Among
+/// the targets a class (slot array, length fields, page header, file header, ...) is drawn by
+/// weight first, then a target of that class uniformly, so that a page full of cells does not
+/// starve the headers.
 pub fn pick_offset(rng: &mut Rng, len: usize, targets: &[Target]) -> (usize, usize, &'static str) {
-    if !targets.is_empty() && rng.chance(2, 3) {
-        let t = targets[rng.usize_below(targets.len())];
+    if !targets.is_empty() && rng.chance(4, 5) {
+        let mut classes: Vec<(u32, Vec<usize>)> = vec![];
+        for (i, t) in targets.iter().enumerate() {
+            let w = class_weight(t.2);
+            match classes.iter_mut().find(|c| c.0 == w) {
+                Some(c) => c.1.push(i),
+                None => classes.push((w, vec![i])),
+            }
+        }
+        classes.sort_by_key(|c| c.0);
+        let ws: Vec<u32> = classes.iter().map(|c| c.0).collect();
+        let c = &classes[rng.weighted(&ws)];
+        let t = targets[c.1[rng.usize_below(c.1.len())]];
         let w = t.1.max(1);
         (t.0 + rng.usize_below(w), w, t.2)
     } else {
@@ -455,7 +495,7 @@ pub fn gen_fault(rng: &mut Rng, buf: &[u8], targets: &[Target], paged: bool, is_
         }
         3 => {
             let unit = if is_wal { WAL_FRAME } else { PAGE };
-            let l = if (paged || is_wal) && len > unit && rng.chance(1, 2) {
+            let l = if (paged || is_wal) && len > unit && rng.chance(3, 4) {
                 // unit aligned: passes the "multiple of page size" check and reaches deeper code
                 (rng.usize_below(len / unit) * unit) as u64
             } else if rng.chance(1, 4) {
